@@ -206,3 +206,57 @@ Theorem c08_rewind : forall rqs,
   forall retr gs rqs' gs',
   rewind_requests rqs retr gs = Ok (rqs', gs') -> rqs' = map (rewind retr) rqs.
 Proof. exact rewind_requests_spec. Qed.
+
+(** ---- an unsolicited acknowledgement does not cost the session its window (Router/SessionBadAck.v)
+    [processed] / [unsolicited] are those of C09 (Router/WindowDisc.v): the batch of connection
+    [id] reaches, in state [s], an ack that is not for the head of the window [o].  The event
+    closes [id]; the state [st3] the close runs on still has exactly [o] at [id], so the session
+    saved for a persistent client keeps the pending releases and is rewound with the
+    retransmission map of the WHOLE window: every saved request on the head's filter restarts at
+    the head's cursor. *)
+From Rumqtt Require Import Router.RunDefs Router.WindowFrame Router.WindowThm Router.WindowDisc Router.WindowExamples Router.SessionBadAck.
+From Rumqtt Require Import Router.Model.
+
+Theorem c08_bad_ack_keeps_window : forall (st : rstate) (id : N) (inc : incoming) (b : linkbuf) (s : rstate)
+    (fls : flags) (p : packet) (o : outgoing) (st' : rstate),
+  slab_get (r_ibufs st) id = Some inc -> nthN (r_links st) (i_link inc) = Some b ->
+  processed id (i_client inc) (link_put st (i_link inc) (set_lk_in b [])) flags0 (lk_in b) s fls p ->
+  slab_get (r_obufs s) id = Some o -> unsolicited o p ->
+  handle_device_payload st id = Ok st' ->
+  exists st3 reason conn trk,
+    handle_disconnection st3 id reason = Ok st' /\
+    slab_get (r_obufs st3) id = Some o /\
+    slab_get (r_conns st3) id = Some conn /\ slab_get (r_trackers st3) id = Some trk /\
+    slab_get (r_obufs st') id = None /\
+    al_get str_eqb (tr_id trk) (r_graveyard st') = Some (saved_session st3 id conn o trk) /\
+    (c_clean conn = false ->
+     exists ss,
+       al_get str_eqb (tr_id trk) (r_graveyard st') = Some (Some ss) /\
+       ss_pubrels ss = o_pubrels o /\
+       tr_reqs (ss_tracker ss) =
+         map (rewind (retransmission_map (o_inflight o) []))
+             (tr_reqs trk ++ snd (dl_clean (r_datalog st3) id)) /\
+       forall pk fidx cu rest, o_inflight o = (pk, fidx, Some cu) :: rest ->
+         al_get N.eqb fidx (retransmission_map (o_inflight o) []) = Some cu /\
+         forall rq, dr_idx rq = fidx ->
+           dr_cursor (rewind (retransmission_map (o_inflight o) []) rq) = cu).
+Proof. exact bad_ack_keeps_window. Qed.
+
+Theorem c08_bad_ack_example :
+  from_init exb_ops = Ok exb_st /\ RunDefs.reachable ex_cfg exb_st /\
+  (exists inc b o conn,
+    slab_get (r_ibufs exb_st) 0 = Some inc /\ nthN (r_links exb_st) (i_link inc) = Some b /\
+    lk_in b = [PPubAck 2] /\
+    slab_get (r_obufs (link_put exb_st (i_link inc) (set_lk_in b []))) 0 = Some o /\
+    o_inflight o = [(1, 0, Some (0, 0)); (2, 0, Some (0, 1)); (3, 0, Some (0, 2))] /\
+    unsolicited o (PPubAck 2) /\
+    processed 0 (i_client inc) (link_put exb_st (i_link inc) (set_lk_in b [])) flags0 (lk_in b)
+              (link_put exb_st (i_link inc) (set_lk_in b [])) flags0 (PPubAck 2) /\
+    slab_get (r_conns exb_st) 0 = Some conn /\ c_clean conn = false) /\
+  RunDefs.run exb_st (plain [OpData 0]) = Ok exb_st1 /\
+  slab_get (r_obufs exb_st1) 0 = None /\
+  (exists ss, al_get str_eqb [115] (r_graveyard exb_st1) = Some (Some ss) /\
+              map dr_cursor (tr_reqs (ss_tracker ss)) = [(0, 0)]) /\
+  RunDefs.run exb_st1 (plain [pconn 115; OpConsume; OpConsume]) = Ok exb_st2 /\
+  fwd_payloads (out_of exb_st2 2) = [[1]; [2]; [3]].
+Proof. exact bad_ack_witness. Qed.
